@@ -550,8 +550,9 @@ func run(c *core.Ctx) {
 				}
 				checkRuns(c, Case{Entry: entryAll, All: all, Runs: 3, Child: child, Def: d})
 				if d == 0 {
-					// output files under another base name (a generator cannot see the name the caller chose)
-					checkRuns(c, Case{Entry: entryAll, All: all, Runs: 4, Child: child, Base: "gen"})
+					// output files under another base name (a generator cannot see the name the caller chose) - one that makes
+					// the generated files sort BEFORE the hand-written ones (their header comment is a package comment, too)
+					checkRuns(c, Case{Entry: entryAll, All: all, Runs: 4, Child: child, Base: "0gen"})
 					checkRuns(c, Case{Entry: []string{".", "./a", "./b", "./c"}, All: all, Runs: 4, Child: child})
 				}
 			}
